@@ -40,6 +40,11 @@ def main():
                     '# (helpers extracted later) are inlined into their callers before the rules run.\n')
             f.write('\n'.join(names) + '\n')
         print(len(names), 'names')
+        with open(os.path.join(os.path.dirname(os.path.abspath(__file__)), 'types_inventory.txt'), 'w') as f:
+            f.write('# types of the analysed crate known to the rule set. A struct that is NOT listed here (introduced later, e.g. a named work item replacing\n'
+                    '# a tuple) is treated as a plain product: its aggregates resolve like tuples and its fields positionally.\n')
+            f.write('\n'.join(sorted(a['path'] for a in doc['adts'])) + '\n')
+        print(len(doc['adts']), 'types')
         return
     if a.cmd == 'explain':
         d = json.load(open(a.path))
